@@ -37,7 +37,7 @@ _CONTRACTS = ["contract:array_2d_util.array_2d_slim_from", "contract:array_2d_ut
 MIN_MONITORS = {"*": dict({c: 1 for c in _CONTRACTS}, **{"array2d.slim": 1, "grid2d.native": 1, "vector.slim": 1,
                                                          "indexes.native_for_slim": 1, "array1d.roundtrip": 1, "shared_input.two_masks": 1,
                                                          "shared_input.remasked_structure": 1, "history.native_after_assignment": 20,
-                                                         "history.indexes_after_mask_edit": 20})}
+                                                         "history.indexes_after_mask_edit": 20, "mask_spelling.same_as_boolean": 20})}
 
 
 def plan(tier, seed):
@@ -308,6 +308,26 @@ def check_2d(ctx, m, rng, full=True, lite=False):
         gn2 = gnc.copy(); gn2[yk, xk] = (7.125, 8.25)
         ctx.check(np.array_equal(_np(GN.native), gn2) and np.array_equal(_np(GN.slim), gn2[~m]), "history.native_after_assignment",
                   structure="Grid2D native-stored", mask=m, pixel=(int(yk), int(xk)), expected=gn2, got=lambda: _np(GN.native))
+    if full:
+        # the same mask supplied in the other documented spellings (0/1 integers, 0.0/1.0 floats, nested lists): "True or 1" is
+        # masked; every conversion must behave as for the boolean array
+        nat_r = 1.0 + idx + 0.25 * rng.random((H, W))
+        for spelling, raw in (("int64", m.astype(np.int64)), ("float64", m.astype(np.float64)), ("uint8", m.astype(np.uint8)),
+                              ("list_of_int", m.astype(int).tolist()), ("list_of_bool", m.tolist())):
+            try:
+                mk = aa.Mask2D(mask=raw, pixel_scales=(1.0, 2.0))
+                A1 = aa.Array2D(values=nat_r.copy(), mask=mk)
+                A2 = aa.Array2D(values=nat_r[~m].copy(), mask=mk, store_native=True)
+                G1 = aa.Grid2D(values=np.stack([nat_r, -nat_r], axis=-1), mask=mk)
+                good = (np.asarray(mk).dtype == bool and np.array_equal(np.asarray(mk), m)
+                        and np.array_equal(_np(A1.slim), nat_r[~m]) and np.array_equal(_np(A1.native), np.where(m, 0.0, nat_r))
+                        and np.array_equal(_np(A2.native), np.where(m, 0.0, nat_r)) and np.array_equal(_np(A2.slim), nat_r[~m])
+                        and np.array_equal(_np(A1.native.slim), nat_r[~m])
+                        and np.array_equal(_np(G1.slim)[:, 1], -nat_r[~m]) and np.array_equal(_np(G1.native)[:, :, 0], np.where(m, 0.0, nat_r))
+                        and np.array_equal(_np(mk.derive_indexes.native_for_slim), np.argwhere(~m)))
+                ctx.check(good, "mask_spelling.same_as_boolean", spelling=spelling, mask=m, got=lambda: [_np(A1.slim), _np(A1.native)])
+            except Exception as e:
+                ctx.check(False, "mask_spelling.same_as_boolean", spelling=spelling, mask=m, exception=repr(e)[:200])
     di = mask.derive_indexes
     nfs = _np(di.native_for_slim)
     ctx.check(np.array_equal(nfs, np.argwhere(~m)), "indexes.native_for_slim", mask=m, got=nfs)
